@@ -15,8 +15,9 @@ CHECKS = {
     "C16": {
         "text": ("Deductive, restricted to the framework helpers that every hardening codemod uses to edit a call's arguments: "
                  "LibcstResultTransformer.replace_args (loop invariants: no argument is dropped; every argument whose keyword is not named in "
-                 "the edit is kept, identical and in place; additions only after the original arguments), _match_with_existing_arg, and https-connection's count_positional_args (leading run of "
-                 "keyword-less arguments)."),
+                 "the edit is kept, identical and in place; additions only after the original arguments), _match_with_existing_arg, add_arg_to_call (one argument appended, the others identical and in "
+                 "place), update_call_target (only the callee changes), update_arg_target, ImportedCallModifier.leave_Call (an unselected or non-matching "
+                 "call is returned untouched; at most one change per call, naming the call's line) and https-connection's count_positional_args."),
         "note": ("libcst nodes are opaque immutable records; matchers.matches(arg.keyword, m.Name(n)) is an uninterpreted predicate. Each codemod's "
                  "own on_result_found, import edits and the remaining helpers are out of reach and listed as such in the evidence."),
         "design_ref": "DESIGN.md section 4 C16",
@@ -28,7 +29,9 @@ CHECKS = {
                  "(include mode ignores a ':line' suffix, exclude mode never excludes a whole file through a ':line' pattern) and match_files (== the "
                  "set-comprehension specification with defaults when None; sorted, duplicate-free, independent of enumeration order) evaluated natively "
                  "on generated inputs; cli.parse_args delivers --path-include/--path-exclude verbatim; write-site frame scan (every write primitive in the "
-                 "package is under an effect contract or on a committed allow-list)."),
+                 "package is under an effect contract or on a committed allow-list); the two get_files_to_analyze implementations (deductive: only selected "
+                 "files with the codemod's extensions / only files carrying a finding of a requested rule); BOUNDED: nothing outside the target is "
+                 "written through symlinked manifests or sources."),
         "note": "fnmatch, Path.rglob/is_symlink trusted; symlinked manifests (BaseParser.find_file_locations) and 'every fixable file is fixed' are out of reach.",
         "design_ref": "DESIGN.md section 4 C05",
     },
